@@ -723,14 +723,16 @@ func (vc *VC) resolveType(text string, pkg *types.Package, c *Clause) types.Type
 	}
 	if i := strings.LastIndex(text, "."); i >= 0 {
 		pn, tn := text[:i], text[i+1:]
-		var p *types.Package
-		if pp, ok := vc.P.PkgByPath[pn]; ok {
-			p = pp.Types
-		} else {
-			env := &specEnv{pkg: pkg}
-			p = vc.findImport(env, pn)
+		var cands []*types.Package
+		if !strings.Contains(pn, "/") {
+			if p := vc.findImport(&specEnv{pkg: pkg}, pn); p != nil {
+				cands = append(cands, p)
+			}
 		}
-		if p != nil {
+		if pp, ok := vc.P.PkgByPath[pn]; ok {
+			cands = append(cands, pp.Types)
+		}
+		for _, p := range cands {
 			if obj := p.Scope().Lookup(tn); obj != nil {
 				if t, ok := obj.(*types.TypeName); ok {
 					return t.Type()
